@@ -573,3 +573,13 @@ func (w *World) ghostSort(t string, fn *ssa.Function) string {
 	}
 	return w.Sorts.SortOf(ty)
 }
+
+// newLemmaEnc returns an encoder with no function: the context lemmas are proved in.
+func (w *World) newLemmaEnc() *FnEnc {
+	e := w.newEnc(nil, nil, "")
+	e.initState = State{}
+	e.cur = State{}
+	e.curGuard = "true"
+	e.ghosts = map[string]HeapVar{}
+	return e
+}
